@@ -8,7 +8,7 @@
    guarantee (u64 addresses, u32 sizes/depths) plus "fewer than 2^32-1 INLINE ranges per FUNC". *)
 From Coq Require Import Lia Sorting.Permutation.
 From RM Require Import C08.Model C08.Proofs C11.Model C11.Proofs1 C11.Proofs2 C11.Proofs3 C11.Proofs4 C11.Proofs5 C11.Proofs6 C11.Proofs7.
-From RM Require C09.Model C09.Grammar C09.Driver C11.Text C11.Text2 C11.Text3 C11.Driver.
+From RM Require C09.Model C09.Grammar C09.Driver C11.Text C11.Text2 C11.Text3 C11.Driver C11.Enc.
 From RM Require Import C11.Proofs8 C11.Proofs9 C11.Proofs10.
 From RM Require Gen.C11Sym C11.Tie.
 Open Scope Z_scope.
@@ -389,9 +389,9 @@ Print Assumptions c11_parser_records_in_range.
    buffer, any read schedule [sch], over-long lines dropped); if it ends Ok with parser state [q] then
    SymbolParser::finish returns a table [t] (no panic), the records of the text are [wf_file], and
    fill_symbol on the parsed table IS [symbolize] on the records of the text — so every theorem of
-   this file is a theorem about the bytes.  What is left as a hypothesis is only the choice of the
-   two encodings ([enc_names_ok]: names as integers injectively / monotonically on the names of the
-   text, a tag for the STACK WIN fields that only take part in ==); nothing about the text itself. *)
+   this file is a theorem about the bytes.  [enc_names_ok] asks only that the two encodings fit (names as
+   integers injectively / monotonically on the names of the text, a tag for the STACK WIN fields that only take
+   part in ==): any such pair will do, and c11_encodings_exist / c11_from_bytes_closed below show one always exists. *)
 Theorem c11_from_bytes : forall nm tg (bytes : list Z) (sch : list Z) q s,
   RM.C09.Driver.drive_c (map Grammar.to_rle (fst (Grammar.split_bytes bytes [])))
                         (Z.of_nat (length (snd (Grammar.split_bytes bytes [])))) sch
@@ -404,6 +404,39 @@ Theorem c11_from_bytes : forall nm tg (bytes : list Z) (sch : list Z) q s,
       fill_symbol p (Text2.symtab_of_table nm tg t) mbase instr = symbolize p (Text2.raw_of_pst nm tg q) mbase instr.
 Proof. exact Text3.from_bytes. Qed.
 Print Assumptions c11_from_bytes.
+
+(* … and the encodings exist: no hypothesis besides the length of the text.  For every parser state reachable by
+   recognised / dropped lines, [Enc.nm_of q] (the rank of a name among the FUNC and PUBLIC names of the text, in
+   String order) and [Enc.tg_of q] (the position of a STACK WIN record's payload among the payloads of the text) meet
+   [enc_names_ok].  Ingredients: [rle_compare] on run-length-encoded strings with positive counts is the lexicographic
+   order of the decoded byte strings (a strict total order), decoding is injective on normal forms, and every name
+   the parser stores is a normal form (it comes out of rle_norm: invariant [pst_nn] of recog_pst / bump_pst). *)
+Theorem c11_encodings_exist : forall (ds : list (bool * Grammar.rle)) q,
+  RM.C09.Model.replay Grammar.rle Grammar.pst Grammar.recog_pst Grammar.bump_pst Grammar.lineno_pst
+                      Grammar.init_pst ds = inl q ->
+  Text3.enc_names_ok (Enc.nm_of q) (Enc.tg_of q) q.
+Proof. exact Enc.replay_encodings. Qed.
+Print Assumptions c11_encodings_exist.
+
+(* c11_from_bytes, closed: EVERY byte string shorter than 2^32-1 bytes that the parse loop accepts (any read
+   schedule).  With the encodings of c11_encodings_exist: finish returns a table, the records of the text are
+   [wf_file], and fill_symbol on the parsed table is [symbolize] on the records of the text, at every address,
+   module base and profile — so c11_total, c11_func_sound, c11_public_rule, c11_line_sound, c11_inline_chain(_exact),
+   c11_equals_linear_scan … hold of the text with no side condition on it. *)
+Theorem c11_from_bytes_closed : forall (bytes : list Z) (sch : list Z) q s,
+  RM.C09.Driver.drive_c (map Grammar.to_rle (fst (Grammar.split_bytes bytes [])))
+                        (Z.of_nat (length (snd (Grammar.split_bytes bytes [])))) sch
+    = Ret (RM.C09.Model.ROk q, s) ->
+  Z.of_nat (length bytes) < two32 - 1 ->
+  let nm := Enc.nm_of q in let tg := Enc.tg_of q in
+  Text3.enc_names_ok nm tg q /\
+  exists t, Grammar.finish q = Ret t /\
+    wf_file (Text2.raw_of_pst nm tg q) /\
+    st_rel true (Text2.raw_of_pst nm tg q) (Text2.symtab_of_table nm tg t) /\
+    forall p mbase instr, 0 <= mbase -> instr < two64 ->
+      fill_symbol p (Text2.symtab_of_table nm tg t) mbase instr = symbolize p (Text2.raw_of_pst nm tg q) mbase instr.
+Proof. exact Enc.from_bytes_closed. Qed.
+Print Assumptions c11_from_bytes_closed.
 
 (* The same for run-length-encoded lines (a 1 MiB line of one byte is one pair), any tail. *)
 Theorem c11_from_parse : forall nm tg (lines : list Grammar.rle) (tail : Z) (sch : list Z) q s,
@@ -683,10 +716,11 @@ Example c11_nonvacuous_from_bytes :
     Z.of_nat (length nv_bytes) < two32 - 1 /\ Text3.enc_names_ok nv_nm nv_tg q /\
     Text3.pst_rng 104 q /\
     map (fun f => length (Grammar.fr_inls f)) (Text.funcs_of_pst q) = [2%nat] /\
-    non_overlapping (Text2.raw_of_pst nv_nm nv_tg q).
+    non_overlapping (Text2.raw_of_pst nv_nm nv_tg q) /\
+    map (Enc.nm_of q) (Enc.names_of q) = [2; 1; 0].
 Proof.
   eexists. eexists. split; [vm_compute; reflexivity|]. split; [vm_compute; reflexivity|].
-  split; [|split; [|split; [vm_compute; reflexivity|]]].
+  split; [|split; [|split; [vm_compute; reflexivity|split; [|vm_compute; reflexivity]]]].
   - constructor.
     + unfold Text.names_injective. cbn. intros a b [<-|[]] [<-|[]] _. reflexivity.
     + cbn. intros a b [<-|[<-|[]]] [<-|[<-|[]]]; vm_compute; reflexivity.
